@@ -348,12 +348,16 @@ func genBIP32(thorough bool, bounds map[string]interface{}, cs *sink) {
 	hx := hex.EncodeToString
 	seeds := append([][]byte{}, bip32VectorSeeds...)
 	seeds = append(seeds, fixedSeeds()...)
+	maxDepth := 3
+	if thorough {
+		maxDepth = 4
+	}
 	for si, seed := range seeds {
 		n := si % len(nets)
 		cs.add(Case{K: "bip32", H: hx(seed), N: n})
 		var rec func(path []int64)
 		rec = func(path []int64) {
-			if len(path) == 3 {
+			if len(path) == maxDepth {
 				return
 			}
 			for _, i := range bip32Indices {
@@ -379,6 +383,48 @@ func genBIP32(thorough bool, bounds map[string]interface{}, cs *sink) {
 		}
 		cs.add(Case{K: "bip32", H: hx(s), N: 0})
 	}
+	// serialized extended keys with a VALID checksum but boundary / illegal fields
+	{
+		base, _ := refaddr.Master(seeds[0], nets[0].R.HDPriv)
+		pubBase := base.Neuter(nets[0].R.HDPub)
+		ser := func(k *refaddr.XKey, keydata []byte, depth byte) string {
+			b := k.Serialize78()
+			b[4] = depth
+			if keydata != nil {
+				copy(b[45:], keydata)
+			}
+			c := refaddr.DSHA256(b)
+			return refaddr.B58Encode(append(b, c[:4]...))
+		}
+		nm1 := new(big.Int).Sub(refaddr.N, big.NewInt(1))
+		pt := refaddr.BaseMul(big.NewInt(3))
+		for _, kd := range [][]byte{
+			nil,
+			append([]byte{0}, refaddr.Ser32(big.NewInt(0))...),   // private key 0
+			append([]byte{0}, refaddr.Ser32(big.NewInt(1))...),   // 1
+			append([]byte{0}, refaddr.Ser32(nm1)...),             // n-1
+			append([]byte{0}, refaddr.Ser32(refaddr.N)...),       // n
+			append([]byte{0}, bytes.Repeat([]byte{0xff}, 32)...), // 2^256-1
+			append([]byte{1}, refaddr.Ser32(big.NewInt(1))...),   // illegal prefix 01
+			pt.Compressed(), // valid point
+			append([]byte{2}, refaddr.Ser32(big.NewInt(5))...),             // x not on the curve
+			append([]byte{3}, refaddr.Ser32(refaddr.P)...),                 // x = p
+			append([]byte{4}, pt.Compressed()[1:]...),                      // illegal prefix 04
+			append([]byte{5}, pt.Compressed()[1:]...),                      // illegal prefix 05
+			append([]byte{pt.Compressed()[0] ^ 1}, pt.Compressed()[1:]...), // the other parity (valid)
+		} {
+			for _, depth := range []byte{0, 1, 255} {
+				cs.add(Case{K: "xkd", S: ser(base, kd, depth)}, Case{K: "xkd", S: ser(pubBase, kd, depth)})
+			}
+		}
+		// length 81 / 83 byte payloads with valid checksums, empty string
+		b := base.Serialize78()
+		for _, bb := range [][]byte{b[:77], append(append([]byte{}, b...), 0), {}} {
+			c := refaddr.DSHA256(bb)
+			cs.add(Case{K: "xkd", S: refaddr.B58Encode(append(append([]byte{}, bb...), c[:4]...))})
+		}
+		cs.add(Case{K: "xkd", S: ""})
+	}
 	// a deterministic search (reference only) for parents whose private key has leading
 	// zero byte(s): hardened children of such parents exercise the padding of ser256(k).
 	lz := 0
@@ -392,7 +438,7 @@ func genBIP32(thorough bool, bounds map[string]interface{}, cs *sink) {
 			}
 		}
 	}
-	bounds["bip32"] = fmt.Sprintf("%d seeds (BIP32 vector seeds of 16/64/64 bytes + seed#399 (leading-zero child), 16×ff, 64-byte ramp) × every path of depth<=3 over indices {0,1,2^31-1,2^31,2^31+1,2^32-1} (1+6+36+216 nodes per seed); every network × depth<=1; seed lengths {0,1,15,16,17,31,32,33,63,64,65,128}; %d hardened parents with a leading-zero private key found by deterministic search × 6 indices. Per node: Derive vs CKDpriv (string, depth, fingerprint, child number, chain code, keys, version, IsForNet×6, Address, string round trip), Neuter, Derive∘Neuter vs Neuter∘Derive vs CKDpub (non-hardened), ErrDeriveHardFromPublic (hardened)", len(seeds), lz)
+	bounds["bip32"] = fmt.Sprintf("%d seeds (BIP32 vector seeds of 16/64/64 bytes + seed#399 (leading-zero child), 16×ff, 64-byte ramp) × every path of depth<=%d over indices {0,1,2^31-1,2^31,2^31+1,2^32-1} (1+6+36+216[+1296] nodes per seed); every network × depth<=1; seed lengths {0,1,15,16,17,31,32,33,63,64,65,128}; %d hardened parents with a leading-zero private key found by deterministic search × 6 indices. Per node: Derive vs CKDpriv (string, depth, fingerprint, child number, chain code, keys, version, IsForNet×6, Address, string round trip), Neuter, Derive∘Neuter vs Neuter∘Derive vs CKDpub (non-hardened), ErrDeriveHardFromPublic (hardened)", len(seeds), maxDepth, lz)
 }
 
 // hardenedChildNoEC computes ser256 of a hardened child's private key without
